@@ -198,7 +198,8 @@ class CompleteWorkflowHandler(StabilizeHandler[CompleteWorkflow]):
         # give up on it here.
         waiting = {WorkflowStatus.SUSPENDED, WorkflowStatus.PAUSED}
         if (
-            any(s in waiting for s in statuses)
+            not execution.is_canceled  # a cancel is finishing these stages: keep polling until they are CANCELED
+            and any(s in waiting for s in statuses)
             and WorkflowStatus.RUNNING not in statuses
             and not any(
                 stage.status == WorkflowStatus.NOT_STARTED and stage.all_upstream_stages_complete() for stage in stages
